@@ -7,6 +7,7 @@ import datetime
 from fractions import Fraction
 
 from .core import outcome, octs, rxbuf, decoded, owned
+from .probe import fresh
 
 UTC = datetime.timezone.utc
 EPOCH58 = datetime.datetime(1958, 1, 1, tzinfo=UTC)
@@ -92,7 +93,7 @@ def op_cds_unpack(a):
     from spacepackets.ccsds.time import CdsShortTimestamp
 
     def run():
-        d = decoded(lambda: CdsShortTimestamp.unpack(bytes(a["octets"])))
+        d = decoded(lambda: fresh(lambda: CdsShortTimestamp.unpack(bytes(a["octets"]))))
         return {"st": {"days": int(d.ccsds_days), "ms": ms4(d.ms_of_day)}, "repack": octs(d.pack())}
     return outcome(run)
 
